@@ -581,6 +581,22 @@ func (s *Source) onPersistFlushed(seq uint64, err error) {
 		// ack the plugin for a write that did not durably land — the queued
 		// positions stay queued; there is nothing safe to send, and this
 		// connector is on its way down regardless.
+		if s.tearingDown.Load() {
+			// Nothing reads errs during teardown (see the tearingDown field
+			// doc): a blocking send here would park this callback forever,
+			// the flush generation's callbacks would never be reported done
+			// and every later WaitPendingWrites / WaitPersisted (StopAndWait)
+			// would hang on it. Hand the error over if somebody still
+			// listens, otherwise log it: the position was not persisted and
+			// the plugin is not acked, so a restart simply re-delivers.
+			select {
+			case s.errs <- err:
+			default:
+				s.Instance.logger.Err(context.Background(), err).
+					Msg("persisting the source position failed while the connector is being torn down")
+			}
+			return
+		}
 		s.errs <- err
 		return
 	}
